@@ -153,19 +153,30 @@ def check_fair(ws, case):
 
 
 # ---------------------------------------------------------------- sleep
+# time passes while scripts work (every clock query advances the virtual clock): `pre` decides how much of it passes
+# between the start of the scheduler round and the moment the sleep is issued
+BURN = "; ".join(["diag_tickTime"] * 12)
+PRES = ["none", "work-before-sleep", "burner-scheduled-first", "limit-clock-per-instruction"]
+
+
 def gen_sleep(slices):
     for d in (0, 0.001, 0.003, 0.02):
         for comp in ("none", "long", "sleeper"):
             for s in slices:
                 for tick in (50, 500):
-                    yield [d, comp, s, tick]
+                    for pre in PRES:
+                        yield [d, comp, s, tick, pre]
 
 
 def check_sleep(ws, case):
-    d, comp, slice_len, tick = case
+    d, comp, slice_len, tick, pre = case
     main = 'private _a = diag_tickTime; sleep %s; private _b = diag_tickTime; diag_log str ["slept", _b - _a]' % d
+    if pre == "work-before-sleep":
+        main = BURN + "; " + main
     scripts = [main] + ([] if comp == "none" else [SHAPES[comp]("c")])
-    r = run(ws, scripts, slice_len, tick)
+    if pre == "burner-scheduled-first":
+        scripts = ["for \"_k\" from 1 to 6 do { %s }" % BURN] + scripts
+    r = run(ws, scripts, slice_len, tick, conf={"max_runtime_ms": 3600000} if pre == "limit-clock-per-instruction" else None)
     if r["outcome"] != "ok":
         return [("C12|sleep|%s" % r.get("kind", r["outcome"]), "sleep %s with %s: %s" % (d, comp, r.get("kind", r["outcome"])), None, case)], {"n": 1}
     res = r["result"]
@@ -176,7 +187,7 @@ def check_sleep(ws, case):
     slept = vals[0][1]
     # diag_tickTime has millisecond resolution
     if slept + 0.0011 < d:
-        return [("C12|sleep|resumed-early", "sleep %s resumed after %.4f s of virtual time (slice %d, competitor %s)" % (d, slept, slice_len, comp), None, case)], info
+        return [("C12|sleep|resumed-early", "sleep %s resumed after %.4f s of virtual time (slice %d, competitor %s)" % (d, slept, slice_len, comp + "/" + pre), None, case)], info
     # also on the trace: no turn of the sleeping context executes instructions before its wake-up time
     v = check_turns(res["slices"], slice_len)
     if v:
